@@ -170,5 +170,5 @@ func (rs *RandomSubRouter) Join(topic string) {
 }
 
 func (rs *RandomSubRouter) Leave(topic string) {
-	rs.tracer.Join(topic)
+	rs.tracer.Leave(topic)
 }
